@@ -186,8 +186,10 @@ def suite(outdir, jobs):
             if rc != 0:
                 verdict = "patch-failed"
             else:
-                rc, out = sh("cargo test --workspace --offline 2>&1", cwd=wt, timeout=900, env=env)
-                if rc == 124:
+                # GNU timeout signals the whole process group: a test binary that hangs in a mutant is
+                # killed with its cargo (a Python-side timeout alone leaves it spinning for ever)
+                rc, out = sh("timeout -s KILL 900 cargo test --workspace --offline 2>&1", cwd=wt, timeout=1000, env=env)
+                if rc in (124, 137):
                     verdict = "suite-timeout"
                 elif re.search(r"^error(\[|:)", out, re.M) and "test result" not in out:
                     verdict = "compile-error"
